@@ -5,7 +5,7 @@
      (no slot is handed out twice), for every history. *)
 From Coq Require Import ZArith List Bool Arith Lia.
 From Common Require Import ListAux.
-From Hash Require Import HashBase HashSpec HashModel HashProofs HashRefine.
+From Hash Require Import HashBase HashSpec HashModel HashProofs HashRefine HashPool.
 Import ListNotations.
 Local Open Scope Z_scope.
 
@@ -108,24 +108,81 @@ Proof.
 Qed.
 
 Lemma invariant_step kd st o : state_ok st -> state_ok (fst (step kd st o)).
-Proof. intros H. apply (step_refines K keqb hash keqb_spec kd st o H). Qed.
+Proof. intros H. apply (step_ok K keqb hash keqb_spec kd st o H). Qed.
 
 (* ---- the reference states of a history -------------------------------------------------------- *)
 Fixpoint spec_states (kd : kind) (st : list omap) (ops : list (op K)) : list omap :=
   match ops with [] => st | o :: rest => spec_states kd (fst (spec_step keqb kd st o)) rest end.
 
-Lemma states_refine kd ops : forall st, state_ok st ->
+(* the full invariant of a state: chains + order list (needs the key equality), sentinel link and node recycling *)
+Notation links_all := (Forall (links_ok K)).
+Notation pool_all := (Forall (pool_ok K)).
+
+Lemma full_step kd st o :
+  state_ok st -> links_all st -> pool_all st ->
+  (state_ok (fst (step kd st o)) /\ links_all (fst (step kd st o)) /\ pool_all (fst (step kd st o))) /\
+  spec_step keqb kd (abs_st st) o = (abs_st (fst (step kd st o)), snd (step kd st o)).
+Proof.
+  intros Hst Hl Hp.
+  destruct (step_refines K keqb hash keqb_spec kd st o Hst (pool_slots_nodup_all K st Hp)) as [H1 H2].
+  destruct (pool_step K keqb hash kd st o Hl Hp) as [H3 H4]. auto.
+Qed.
+
+Lemma states_refine kd ops : forall st, state_ok st -> links_all st -> pool_all st ->
   abs_st (states K keqb hash kd st ops) = spec_states kd (abs_st st) ops.
 Proof.
-  induction ops as [|o rest IH]; intros st Hst; cbn [states spec_states]; auto.
-  destruct (step_refines K keqb hash keqb_spec kd st o Hst) as [H1 H2]. rewrite H2. cbn [fst]. apply IH. exact H1.
+  induction ops as [|o rest IH]; intros st Hst Hl Hp; cbn [states spec_states]; auto.
+  destruct (full_step kd st o Hst Hl Hp) as [[H1 [H3 H4]] H2]. rewrite H2. cbn [fst]. apply IH; assumption.
+Qed.
+
+Lemma run_refines kd ops : forall st, state_ok st -> links_all st -> pool_all st ->
+  HashModel.run keqb hash kd st ops = spec_run keqb kd (abs_st st) ops.
+Proof.
+  induction ops as [|o rest IH]; intros st Hst Hl Hp; cbn [HashModel.run spec_run]; auto.
+  destruct (full_step kd st o Hst Hl Hp) as [[H1 [H3 H4]] H2]. rewrite H2.
+  destruct (step kd st o) as [st' r]. cbn [fst snd] in *.
+  rewrite (obs_st_refines K hash st' H1). f_equal. apply IH; assumption.
+Qed.
+
+Theorem refines_ordered_map kd caps ops :
+  Forall (fun c => 0 <= c) caps ->
+  HashModel.run keqb hash kd (start K caps) ops = spec_run keqb kd (map (fun _ => []) caps) ops.
+Proof.
+  intros H. rewrite <- (abs_start K). apply run_refines; [apply start_ok; exact H | apply links_start | apply pool_start].
+Qed.
+
+(* ---- traversal through iterators, in every reachable state ---------------------------------------- *)
+Lemma iter_back_ok t : chains_ok t -> pool_ok K t -> iter_back t = option_map (@rev (K * Z)) (iter_fwd t).
+Proof. intros Hok Hp. apply iter_back_rev_fwd; [apply (ok_endprev K hash t Hok) | apply pool_slots_nodup; exact Hp]. Qed.
+
+Theorem iter_back_reachable kd caps ops :
+  Forall (fun c => 0 <= c) caps ->
+  Forall (fun t => iter_fwd t = Some (abs t) /\ iter_back t = Some (rev (abs t)))
+         (states K keqb hash kd (start K caps) ops).
+Proof.
+  intros Hc. pose proof (invariant_reachable K keqb hash keqb_spec kd caps ops Hc) as Hok.
+  destruct (pool_reachable K keqb hash kd caps ops) as [_ Hp]. unfold HashRefine.state_ok in Hok.
+  rewrite Forall_forall in *. intros t Ht. split; [reflexivity|].
+  rewrite (iter_back_ok t (Hok t Ht) (Hp t Ht)). reflexivity.
+Qed.
+
+(* the step itself: the result of the backward traversal is the reverse of the sequence the reference holds *)
+Lemma iter_step_results kd st x t :
+  state_ok st -> pool_all st -> nth_error st x = Some t ->
+  step kd st (OIterFwd x) = (st, RWalk (Some (abs t))) /\ step kd st (OIterBack x) = (st, RWalk (Some (rev (abs t)))).
+Proof.
+  intros Hst Hp E. unfold HashModel.step. cbn [op_allowed negb]. unfold with_var. rewrite E.
+  assert (Hu : upd x t st = st) by (apply upd_same; exact E). rewrite Hu. split; [reflexivity|].
+  rewrite (iter_back_ok t (state_ok_nth K hash st x t Hst E)); [reflexivity|].
+  rewrite Forall_forall in Hp. apply Hp. eapply nth_error_In; exact E.
 Qed.
 
 Lemma spec_reachable_unique_keys kd caps ops :
   Forall (fun c => 0 <= c) caps ->
   Forall (fun l => NoDup (map fst l)) (spec_states kd (map (fun _ => []) caps) ops).
 Proof.
-  intros Hc. rewrite <- (abs_start K). rewrite <- states_refine by (apply start_ok; exact Hc).
+  intros Hc. rewrite <- (abs_start K).
+  rewrite <- states_refine by (first [apply start_ok; exact Hc | apply links_start | apply pool_start]).
   pose proof (invariant_reachable K keqb hash keqb_spec kd caps ops Hc) as Hok.
   unfold HashRefine.abs_st. apply Forall_forall. intros l Hl. apply in_map_iff in Hl. destruct Hl as [t [<- Ht]].
   rewrite (abs_keys K). apply (ok_nodup K hash). revert t Ht. apply Forall_forall. exact Hok.
